@@ -667,6 +667,13 @@ func (dsc *dataStoreCommand) invertBits(srcKeyName, destKeyName string) (output 
 		invertedBytes = make([]byte, 0)
 	}
 
+	if len(invertedBytes) == 0 {
+		// an empty result deletes the destination instead of storing an empty string
+		dsc.ds.data.remove(destKeyName)
+		output.data = respInt(0)
+		return
+	}
+
 	newSk := dsc.ds.newStoreKeyUnlocked(destKeyName)
 	newSk.flags = FLAG_KEY_TYPE_STRING
 	newSk.expiresAt = maxTime
